@@ -7,5 +7,7 @@ mkdir -p build evidence replays
 cp /repo/go.sum harness/go.sum
 [ -f harness/go.mod ] || cp harness/go.mod.in harness/go.mod
 (cd harness && go build -tags verif -o ../build/rvh .)
-(cd lean && lake build)
+# the driver and every theorem module the checks name (about 2 min on 16 cores; the checks then only re-verify what changed)
+MODS=$(python3 -c "import json,glob; print(' '.join(sorted({m for f in glob.glob('props/C*.json') for m in json.load(open(f))['lean_modules']})))")
+(cd lean && lake build $MODS rvdrv)
 echo setup done
